@@ -322,4 +322,48 @@ theorem truncated_folded_inherit (eps delta sens lo hi x y : ℝ) (c d : ENNReal
   ⟨dp_postprocess P _ _ (truncate lo hi) (measurable_truncate lo hi) c d h,
    dp_postprocess P _ _ (fun v => fold lo hi v) (measurable_fold lo hi 16) c d h⟩
 
+/-! ### 7. Bingham — known finding `C03:bingham:law:acceptance-inverted`
+
+The model is faithful to the code: the acceptance probability DIVIDES by `(u·Ω·u)^(q/2)`.  For the released direction
+to follow the Bingham law it would have to be the Kent–Ganeiber–Mardia ratio `f_Bing/(M·f_ACG)`, which MULTIPLIES by
+that factor.  The full statement is kept as a `Prop`; what is proved is the exact relation between the two, the law
+the code really produces, and the counter-example (replayed statistically on the implementation on every run). -/
+
+/-- full statement (false for the code as it is): the coded acceptance probability is the KGM ratio -/
+def C03_bingham_full : Prop :=
+  ∀ (uAu uOu M : ℝ) (q : Nat), 0 < uOu → 0 < M → binghamAcceptCoded uAu uOu M q = binghamAcceptKGM uAu uOu M q
+
+/-- the coded ratio is the KGM ratio divided by `(u·Ω·u)^q`; they agree exactly where `u·Ω·u = 1`
+(the top eigenvector's direction) -/
+theorem bingham_accept_partial (uAu uOu M : ℝ) (q : Nat) (ho : 0 < uOu) (hM : 0 < M) :
+    binghamAcceptCoded uAu uOu M q = binghamAcceptKGM uAu uOu M q / uOu ^ (q : ℝ) ∧
+    (uOu = 1 → binghamAcceptCoded uAu uOu M q = binghamAcceptKGM uAu uOu M q) := by
+  unfold binghamAcceptCoded binghamAcceptKGM
+  simp only [transc_exp, transc_pow]
+  have hp : 0 < uOu ^ ((q : ℝ) / 2) := Real.rpow_pos_of_pos ho _
+  have hq : uOu ^ (q : ℝ) = uOu ^ ((q : ℝ) / 2) * uOu ^ ((q : ℝ) / 2) := by
+    rw [← Real.rpow_add ho]; congr 1; ring
+  constructor
+  · rw [hq]; field_simp
+  · intro h1; rw [h1]; simp
+
+/-- proposal density × coded acceptance: the released direction has density ∝ `exp(-u·A'·u) · (u·Ω·u)^(-q)`,
+not the Bingham density `exp(-u·A'·u)` -/
+theorem bingham_released_density (uAu uOu M : ℝ) (q : Nat) (ho : 0 < uOu) :
+    acgDensity uOu q * binghamAcceptCoded uAu uOu M q = Real.exp (-uAu) * uOu ^ (-(q : ℝ)) / M := by
+  unfold acgDensity binghamAcceptCoded
+  simp only [transc_exp, transc_pow]
+  have hq : uOu ^ (-(q : ℝ)) = uOu ^ (-((q : ℝ) / 2)) * uOu ^ (-((q : ℝ) / 2)) := by
+    rw [← Real.rpow_add ho]; congr 1; ring
+  rw [hq, Real.rpow_neg ho.le]
+  ring
+
+/-- counter-example: at `u·Ω·u = 2`, `q = 2` the coded probability is a quarter of the KGM ratio -/
+theorem bingham_accept_cex : ¬ C03_bingham_full := by
+  intro h
+  have h1 := h 0 2 1 2 (by norm_num) (by norm_num)
+  unfold binghamAcceptCoded binghamAcceptKGM at h1
+  simp only [transc_exp, transc_pow, neg_zero, Real.exp_zero] at h1
+  norm_num at h1
+
 end DPL.C03
